@@ -79,21 +79,24 @@ def kw(call, name):
 
 
 def render_type(node):
-    """Text of an annotation for the forms the documented grammar covers."""
+    """Text of an annotation for the forms the documented grammar covers; None = outside the judged grammar."""
     if isinstance(node, ast.Name):
         return node.id
     if isinstance(node, ast.Attribute):
-        return render_type(node.value) + "." + node.attr
+        v = render_type(node.value)
+        return None if v is None else v + "." + node.attr
     if isinstance(node, ast.Subscript):
-        return render_type(node.value) + "[" + render_type(node.slice) + "]"
+        a, b = render_type(node.value), render_type(node.slice)
+        return None if a is None or b is None else a + "[" + b + "]"
     if isinstance(node, ast.Tuple):
-        return ", ".join(render_type(e) for e in node.elts)
+        parts = [render_type(e) for e in node.elts]
+        return None if any(p is None for p in parts) else ", ".join(parts)
     if isinstance(node, ast.Constant):
         if isinstance(node.value, str):
             return node.value
         if node.value is None:
             return "None"
-        return None  # outside the judged grammar
+        return None
     if isinstance(node, ast.BinOp) and isinstance(node.op, ast.BitOr):
         l, r = render_type(node.left), render_type(node.right)
         if l is None or r is None:
@@ -199,8 +202,11 @@ class FileModel:
             return
         self.lt = LineTable(text)
         self.strtok = StringTokens(text)
-        self._walk(self.tree.body, cls=None, depth=0)
-        self._imports(self.tree.body)
+        try:
+            self._walk(self.tree.body, cls=None, depth=0)
+            self._imports(self.tree.body)
+        except RecursionError:
+            self.ok = False
 
     # ---- imports -------------------------------------------------------------------
     def _imports(self, body):
